@@ -3,12 +3,506 @@
 -/
 import BioCantor.Proofs.Common
 import BioCantor.Proofs.PointMaps
+import BioCantor.Proofs.RelToBasics
 import BioCantor.Model.RelativeTo
 namespace BioCantor.Proofs
 open BioCantor BioCantor.Spec BioCantor.Model
 
+/-! ### the three location classes through `toLoc` -/
+
+theorem toLoc_facts (o : Location) (loc : Loc) (h : toLoc o = some loc) :
+    locBlocks o = loc.blocks ∧ locationBlocks o = loc.blocks ∧ locationBases o = bases loc ∧
+    locationCovers o = coversBlocks loc.blocks ∧ locStrand o = .ok loc.strand ∧
+    locationStrand? o = some loc.strand ∧ o ≠ .empty := by
+  cases o with
+  | single b s => simp only [toLoc, Option.some.injEq] at h; subst h; exact ⟨rfl, rfl, rfl, rfl, rfl, rfl, by simp⟩
+  | compound l => simp only [toLoc, Option.some.injEq] at h; subst h; exact ⟨rfl, rfl, rfl, rfl, rfl, rfl, by simp⟩
+  | empty => simp [toLoc] at h
+
+theorem WF_valid (o : Location) (loc : Loc) (h : toLoc o = some loc) (hwf : WF o) :
+    ∀ b ∈ loc.blocks, b.1 ≤ b.2 := by
+  cases o with
+  | single b s =>
+    simp only [toLoc, Option.some.injEq] at h; subst h
+    intro c hc; simp at hc; subst hc; exact hwf
+  | compound l =>
+    simp only [toLoc, Option.some.injEq] at h; subst h
+    exact (blocksValid_iff _).mp hwf.2.1
+  | empty => simp [toLoc] at h
+
+/-! ### one block of `self` against `other` -/
+
+/-- the block returned by `singleRelativeTo` for block `x` against the layout `B` with reading `L` -/
+def relBlk (B : List Blk) (L : List Nat) (x : Blk) : Blk :=
+  match clipSpan B x with
+  | none => (0, 0)
+  | some (is, ie) =>
+    let r1 := (idxOf? is L).getD 0
+    let r2 := (idxOf? (ie - 1) L).getD 0
+    (min r1 r2, max r1 r2 + 1)
+
+theorem relBlk_eq {B : List Blk} {L : List Nat} {x : Blk} {is ie i1 i2 : Nat}
+    (hc : clipSpan B x = some (is, ie)) (e1 : idxOf? is L = some i1) (e2 : idxOf? (ie - 1) L = some i2) :
+    relBlk B L x = (min i1 i2, max i1 i2 + 1) := by
+  simp [relBlk, hc, e1, e2]
+
+theorem p2r_covered (o : Location) (loc : Loc) (hl : toLoc o = some loc) (hwf : WF o)
+    (hdir : loc.strand ≠ .unstranded) (p : Nat) (hc : coversBlocks loc.blocks p = true) :
+    ∃ i, idxOf? p (bases loc) = some i ∧ p2r o (p : Int) = .ok (i : Int) := by
+  obtain ⟨i, hi⟩ := idxOf?_of_mem (mem_bases.mpr hc : p ∈ bases ⟨loc.blocks, loc.strand⟩)
+  refine ⟨i, hi, ?_⟩
+  have h := p2r_ok o hwf p
+  unfold okP2R expectP2R at h
+  have hneg : ¬ ((p : Int) < 0) := by omega
+  simp only [hl, hdir, hneg, if_false, Int.toNat_natCast, beq_iff_eq] at h
+  rw [show bases loc = bases ⟨loc.blocks, loc.strand⟩ from rfl, hi] at h
+  exact (ans_eq_some _ _).mp h
+
+theorem singleRelativeTo_eq (o : Location) (loc : Loc) (hl : toLoc o = some loc) (hwf : WF o)
+    (hdir : loc.strand ≠ .unstranded) (x : Blk) (st : Strand) {is ie : Nat}
+    (hc : clipSpan loc.blocks x = some (is, ie)) :
+    singleRelativeTo x st o =
+      .ok (.single (relBlk loc.blocks (bases loc) x) (strandRelativeTo st loc.strand)) := by
+  obtain ⟨hb, -, -, -, hs, -⟩ := toLoc_facts o loc hl
+  obtain ⟨⟨c1, _, _⟩, hpos, ⟨c2, _, _⟩, _⟩ := clipSpan_some hc
+  obtain ⟨i1, e1, q1⟩ := p2r_covered o loc hl hwf hdir is c1
+  obtain ⟨i2, e2, q2⟩ := p2r_covered o loc hl hwf hdir (ie - 1) c2
+  have hcast : ((ie : Int) - 1) = ((ie - 1 : Nat) : Int) := by omega
+  unfold singleRelativeTo
+  rw [hb, hc]
+  simp only [q1, hcast, q2, hs, bind, Except.bind, mkSingle]
+  have c : 0 ≤ min (i1 : Int) (i2 : Int) ∧ min (i1 : Int) (i2 : Int) ≤ max (i1 : Int) (i2 : Int) + 1 := by omega
+  have t1 : (min (i1 : Int) (i2 : Int)).toNat = min i1 i2 := by omega
+  have t2 : (max (i1 : Int) (i2 : Int) + 1).toNat = max i1 i2 + 1 := by omega
+  rw [if_pos c, t1, t2, relBlk_eq hc e1 e2]
+  rfl
+
+theorem relBlk_pos (B : List Blk) (sb : Strand) (x : Blk) (hx : ∃ p, Shared B x p) :
+    (relBlk B (bases ⟨B, sb⟩) x).1 < (relBlk B (bases ⟨B, sb⟩) x).2 := by
+  obtain ⟨p, hp⟩ := hx
+  obtain ⟨is, ie, hc⟩ := clipSpan_isSome_of_shared hp
+  obtain ⟨⟨c1, _, _⟩, hpos, ⟨c2, _, _⟩, _⟩ := clipSpan_some hc
+  obtain ⟨i1, e1⟩ := idxOf?_of_mem (mem_bases.mpr c1 : is ∈ bases ⟨B, sb⟩)
+  obtain ⟨i2, e2⟩ := idxOf?_of_mem (mem_bases.mpr c2 : ie - 1 ∈ bases ⟨B, sb⟩)
+  rw [relBlk_eq hc e1 e2]
+  simp only
+  omega
+
+/-- the relative block of `x` contains exactly the images of the shared positions -/
+theorem mem_relBlk (B : List Blk) (sb : Strand) (hv : ∀ b ∈ B, b.1 ≤ b.2) (hno : nonOverlap B = true)
+    (x : Blk) (hx : ∃ p, Shared B x p) (r : Nat) :
+    ((relBlk B (bases ⟨B, sb⟩) x).1 ≤ r ∧ r < (relBlk B (bases ⟨B, sb⟩) x).2) ↔
+      ∃ p, x.1 ≤ p ∧ p < x.2 ∧ idxOf? p (bases ⟨B, sb⟩) = some r := by
+  obtain ⟨p, hp⟩ := hx
+  obtain ⟨is, ie, hc⟩ := clipSpan_isSome_of_shared hp
+  obtain ⟨⟨c1, a1, a2⟩, hpos, ⟨c2, a3, a4⟩, hall⟩ := clipSpan_some hc
+  obtain ⟨i1, e1⟩ := idxOf?_of_mem (mem_bases.mpr c1 : is ∈ bases ⟨B, sb⟩)
+  obtain ⟨i2, e2⟩ := idxOf?_of_mem (mem_bases.mpr c2 : ie - 1 ∈ bases ⟨B, sb⟩)
+  rw [relBlk_eq hc e1 e2]
+  refine interval_mem _ (bases_sorted (nonOverlap_pairwise B hv hno)) x is (ie - 1) i1 i2 e1 e2
+    ⟨a1, a2⟩ ⟨a3, a4⟩ ?_ r
+  intro q hq h1 h2
+  have := hall q ⟨mem_bases.mp hq, h1, h2⟩
+  omega
+
+theorem relBlk_perm (B : List Blk) (sb : Strand) (hv : ∀ b ∈ B, b.1 ≤ b.2) (hno : nonOverlap B = true)
+    (x : Blk) (hx : ∃ p, Shared B x p) :
+    (blkAsc (relBlk B (bases ⟨B, sb⟩) x)).Perm
+      (((blkAsc x).filter (coversBlocks B)).filterMap (fun p => idxOf? p (bases ⟨B, sb⟩))) := by
+  rw [List.perm_ext_iff_of_nodup]
+  · intro r
+    rw [mem_blkAsc, mem_relBlk B sb hv hno x hx r]
+    simp only [List.mem_filterMap, List.mem_filter, mem_blkAsc]
+    constructor
+    · rintro ⟨p, h1, h2, h3⟩
+      exact ⟨p, ⟨⟨h1, h2⟩, mem_bases.mp (mem_of_idxOf? h3)⟩, h3⟩
+    · rintro ⟨p, ⟨⟨h1, h2⟩, _⟩, h3⟩
+      exact ⟨p, h1, h2, h3⟩
+  · exact List.nodup_range' ..
+  · have h0 : (blkAsc x).Nodup := List.nodup_range' ..
+    refine List.Pairwise.filterMap _ ?_ (h0.filter _)
+    intro a a' hne b hb b' hb' hbb
+    subst hbb
+    have g1 := getElem?_of_idxOf? _ _ _ hb
+    have g2 := getElem?_of_idxOf? _ _ _ hb'
+    rw [g1] at g2
+    exact hne (Option.some.inj g2)
+
+theorem filter_nil_of_not_shared (B : List Blk) (x : Blk) (hx : ¬ ∃ p, Shared B x p) :
+    (blkAsc x).filter (coversBlocks B) = [] := by
+  rw [List.filter_eq_nil_iff]
+  intro p hp hc
+  rw [mem_blkAsc] at hp
+  exact hx ⟨p, hc, hp.1, hp.2⟩
+
+/-- blocks of a non-overlapping `self` give disjoint relative blocks -/
+theorem relBlk_disjoint (B : List Blk) (sb : Strand) (hv : ∀ b ∈ B, b.1 ≤ b.2) (hno : nonOverlap B = true)
+    (x y : Blk) (hx : ∃ p, Shared B x p) (hy : ∃ p, Shared B y p) (hxy : x.2 ≤ y.1) :
+    (relBlk B (bases ⟨B, sb⟩) x).2 ≤ (relBlk B (bases ⟨B, sb⟩) y).1 ∨
+      (relBlk B (bases ⟨B, sb⟩) y).2 ≤ (relBlk B (bases ⟨B, sb⟩) x).1 := by
+  have px := relBlk_pos B sb x hx
+  have py := relBlk_pos B sb y hy
+  have mx := mem_relBlk B sb hv hno x hx
+  have my := mem_relBlk B sb hv hno y hy
+  generalize relBlk B (bases ⟨B, sb⟩) x = fx at *
+  generalize relBlk B (bases ⟨B, sb⟩) y = fy at *
+  by_cases h : fx.2 ≤ fy.1 ∨ fy.2 ≤ fx.1
+  · exact h
+  · exfalso
+    obtain ⟨p, h1, h2, h3⟩ := (mx (max fx.1 fy.1)).mp (by omega)
+    obtain ⟨q, h4, h5, h6⟩ := (my (max fx.1 fy.1)).mp (by omega)
+    have g1 := getElem?_of_idxOf? _ _ _ h3
+    have g2 := getElem?_of_idxOf? _ _ _ h6
+    rw [g1] at g2
+    have := Option.some.inj g2
+    omega
+
+/-! ### generic list fact -/
+
+theorem flatMap_filter_perm {α β : Type} (A : List α) (P : α → Bool) (h g : α → List β)
+    (h1 : ∀ x ∈ A, P x = true → (h x).Perm (g x)) (h2 : ∀ x ∈ A, P x = false → g x = []) :
+    ((A.filter P).flatMap h).Perm (A.flatMap g) := by
+  induction A with
+  | nil => simp
+  | cons a t ih =>
+    have ih' := ih (fun x hx => h1 x (List.mem_cons_of_mem _ hx)) (fun x hx => h2 x (List.mem_cons_of_mem _ hx))
+    cases hp : P a with
+    | true =>
+      rw [List.filter_cons_of_pos hp, List.flatMap_cons, List.flatMap_cons]
+      exact (h1 a (List.mem_cons_self ..) hp).append ih'
+    | false =>
+      rw [List.filter_cons_of_neg (by simp [hp]), List.flatMap_cons, h2 a (List.mem_cons_self ..) hp]
+      simpa using ih'
+
+/-! ### well-formedness of whatever is returned -/
+
+theorem mkSingle_wf {s e : Int} {st : Strand} {m : Location} (h : mkSingle s e st = .ok m) :
+    wfLocation m = true := by
+  unfold mkSingle at h
+  split at h
+  · rename_i hc
+    cases h
+    simp only [wfLocation, decide_eq_true_eq]
+    omega
+  · cases h
+
+theorem mkCompoundLoc_canon {bs : List Blk} {s : Strand} {c : Loc} (h : mkCompoundLoc bs s = .ok c) :
+    c.Canon := by
+  unfold mkCompoundLoc at h
+  split at h
+  · cases h
+  · rename_i hne
+    simp only at h
+    split at h
+    · rename_i hv
+      cases h
+      exact ⟨sortBlocks_ne_nil s (by simpa using hne), hv,
+        sortedBy_of_pairwise _ _ (sortBlocks_pairwise s bs)⟩
+    · cases h
+
+theorem optimizeLoc_wf {p : Bool} {c : Loc} (hc : c.Canon) {m : Location} (h : optimizeLoc p c = .ok m) :
+    wfLocation m = true := by
+  unfold optimizeLoc at h
+  generalize combineLoop p c.blocks none [] false = r at h
+  obtain ⟨nb, needs⟩ := r
+  simp only at h
+  split at h
+  · cases h; exact wfLocation_toSingleIfOne c hc
+  · split at h
+    · cases h; rfl
+    · cases hm : mkCompoundLoc nb c.strand with
+      | error e => rw [hm] at h; cases h
+      | ok l' =>
+        rw [hm] at h
+        cases h
+        exact wfLocation_toSingleIfOne l' (mkCompoundLoc_canon hm)
+
+theorem singleRelativeTo_wf {x : Blk} {st : Strand} {o m : Location} (h : singleRelativeTo x st o = .ok m) :
+    wfLocation m = true := by
+  unfold singleRelativeTo at h
+  split at h
+  · cases h
+  · simp only [bind, Except.bind] at h
+    split at h
+    · cases h
+    · split at h
+      · cases h
+      · split at h
+        · cases h
+        · exact mkSingle_wf h
+
+/-! ### the spec predicate, reduced to its obligations -/
+
+theorem okLocRel_of (a o : Location) (la lo : Loc) (hla : toLoc a = some la) (hlo : toLoc o = some lo)
+    (opt : Bool) (av : Option Location)
+    (hrefuse : (¬ ∃ p, coversBlocks la.blocks p = true ∧ coversBlocks lo.blocks p = true) → av = none)
+    (hwf : ∀ m, av = some m → wfLocation m = true)
+    (hmain : (∃ p, coversBlocks la.blocks p = true ∧ coversBlocks lo.blocks p = true) →
+      lo.strand ≠ .unstranded → nonOverlap la.blocks = true → nonOverlap lo.blocks = true →
+      ∃ m, av = some m ∧ locationStrand? m = some (compose la.strand lo.strand) ∧ m ≠ .empty ∧
+        ((locationBlocks m).flatMap blkAsc).Perm
+          (((bases la).filter (coversBlocks lo.blocks)).filterMap (fun p => idxOf? p (bases lo))) ∧
+        (opt = true → normalBlocks (locationBlocks m) = true)) :
+    okLocRel a o opt av = true := by
+  obtain ⟨-, ab, aB, -, -, as, ane⟩ := toLoc_facts a la hla
+  obtain ⟨-, ob, oB, oc, -, os, one⟩ := toLoc_facts o lo hlo
+  unfold okLocRel okLocRel.strandOf?
+  have e1 : ¬ ((a == Location.empty) = true ∨ (o == Location.empty) = true) := by simp [ane, one]
+  rw [if_neg e1]
+  simp only [ab, aB, ob, oB, oc, as, os]
+  by_cases hex : ∃ p, coversBlocks la.blocks p = true ∧ coversBlocks lo.blocks p = true
+  · have hce : ((bases la).filter (coversBlocks lo.blocks)).isEmpty = false := by
+      obtain ⟨p, h1, h2⟩ := hex
+      have : p ∈ (bases la).filter (coversBlocks lo.blocks) :=
+        List.mem_filter.mpr ⟨(mem_bases (bs := la.blocks) (st := la.strand)).mpr h1, h2⟩
+      cases hq : (bases la).filter (coversBlocks lo.blocks) with
+      | nil => rw [hq] at this; simp at this
+      | cons _ _ => rfl
+    simp only [hce, Bool.false_eq_true, if_false]
+    by_cases hu : lo.strand = .unstranded
+    · simp [hu]
+    · have hu' : ¬ ((some lo.strand == some Strand.unstranded) = true) := by simpa using hu
+      rw [if_neg hu']
+      by_cases hno : (nonOverlap la.blocks && nonOverlap lo.blocks) = true
+      · simp only [hno, not_true, if_false]
+        simp only [Bool.and_eq_true] at hno
+        obtain ⟨m, hm, hs, hne, hperm, hnorm⟩ := hmain hex hu hno.1 hno.2
+        subst hm
+        simp only [hs, hwf m rfl, sortNat_perm hperm]
+        cases opt with
+        | false => simp [hne]
+        | true => simp [hne, hnorm rfl]
+      · rw [if_pos hno]
+        cases av with
+        | none => rfl
+        | some m => exact hwf m rfl
+  · have hce : ((bases la).filter (coversBlocks lo.blocks)).isEmpty = true := by
+      rw [List.isEmpty_iff, List.filter_eq_nil_iff]
+      intro p hp hc
+      exact hex ⟨p, (mem_bases (bs := la.blocks) (st := la.strand)).mp hp, hc⟩
+    simp [hce, hrefuse hex]
+
+/-! ### the model, case by case -/
+
+theorem locationRelativeTo_single (x : Blk) (st : Strand) (o : Location) (lo : Loc)
+    (hlo : toLoc o = some lo) (opt : Bool) :
+    locationRelativeTo (.single x st) o opt =
+      if ¬ anyOverlap [x] lo.blocks then throw .LocationOverlap else singleRelativeTo x st o := by
+  cases o with
+  | single b s => simp only [toLoc, Option.some.injEq] at hlo; subst hlo; rfl
+  | compound l => simp only [toLoc, Option.some.injEq] at hlo; subst hlo; rfl
+  | empty => simp [toLoc] at hlo
+
+theorem locationRelativeTo_compound (l : Loc) (o : Location) (lo : Loc)
+    (hlo : toLoc o = some lo) (opt : Bool) :
+    locationRelativeTo (.compound l) o opt =
+      if ¬ anyOverlap l.blocks lo.blocks then throw .LocationOverlap
+      else (do
+        let rel ← locationRelativeTo.go l o (l.blocks.filter (fun b => anyOverlap lo.blocks [b]))
+        let ost ← locStrand o
+        let c ← mkCompoundLoc rel (strandRelativeTo l.strand ost)
+        if opt then optimizeLoc true c else pure (.compound c)) := by
+  cases o with
+  | single b s => simp only [toLoc, Option.some.injEq] at hlo; subst hlo; rfl
+  | compound l => simp only [toLoc, Option.some.injEq] at hlo; subst hlo; rfl
+  | empty => simp [toLoc] at hlo
+
+theorem go_cons (l : Loc) (o : Location) (b : Blk) (bs : List Blk) :
+    locationRelativeTo.go l o (b :: bs) = (do
+      let x ← singleRelativeTo b l.strand o
+      let xs ← locationRelativeTo.go l o bs
+      pure (locBlocks x ++ xs)) := rfl
+
+theorem go_eq (l : Loc) (o : Location) (lo : Loc) (hlo : toLoc o = some lo) (hwf : WF o)
+    (hdir : lo.strand ≠ .unstranded) (hs : List Blk) (hh : ∀ x ∈ hs, ∃ p, Shared lo.blocks x p) :
+    locationRelativeTo.go l o hs = .ok (hs.map (relBlk lo.blocks (bases lo))) := by
+  induction hs with
+  | nil => rfl
+  | cons b bs ih =>
+    obtain ⟨p, hp⟩ := hh b (List.mem_cons_self ..)
+    obtain ⟨is, ie, hc⟩ := clipSpan_isSome_of_shared hp
+    rw [go_cons, singleRelativeTo_eq o lo hlo hwf hdir b l.strand hc,
+      ih (fun x hx => hh x (List.mem_cons_of_mem _ hx))]
+    rfl
+
+theorem relTo_single (x : Blk) (st : Strand) (o : Location) (lo : Loc)
+    (hlo : toLoc o = some lo) (hwf : WF o) (opt : Bool) :
+    okLocRel (.single x st) o opt (ans (locationRelativeTo (.single x st) o opt)) = true := by
+  rw [locationRelativeTo_single x st o lo hlo opt]
+  have hB := WF_valid o lo hlo hwf
+  obtain ⟨B, sb⟩ := lo
+  simp only at hB
+  apply okLocRel_of (.single x st) o ⟨[x], st⟩ ⟨B, sb⟩ rfl hlo
+  · intro hne
+    have : anyOverlap [x] B = false := by
+      rw [← Bool.not_eq_true, anyOverlap_iff]; exact hne
+    simp [this]
+  · intro m hm
+    split at hm
+    · simp at hm
+    · exact singleRelativeTo_wf ((ans_eq_some _ _).mp hm)
+  · intro hex hdir _ hno
+    simp only at hex hdir hno
+    have hov : anyOverlap [x] B = true := (anyOverlap_iff _ _).mpr hex
+    obtain ⟨p, h1, h2⟩ := hex
+    have hp : Shared B x p := by
+      simp [coversBlocks] at h1
+      exact ⟨h2, h1.1, h1.2⟩
+    obtain ⟨is, ie, hc⟩ := clipSpan_isSome_of_shared hp
+    rw [if_neg (by simp [hov]), singleRelativeTo_eq o ⟨B, sb⟩ hlo hwf hdir x st hc, ans_ok]
+    refine ⟨_, rfl, ?_, by simp, ?_, ?_⟩
+    · simp [locationStrand?, strandRelativeTo_eq_compose']
+    · simp only [locationBlocks, List.flatMap_cons, List.flatMap_nil, List.append_nil]
+      refine (relBlk_perm B sb hB hno x ⟨p, hp⟩).trans ?_
+      apply List.Perm.filterMap
+      apply List.Perm.filter
+      rw [bases_mk]
+      simp only [basesPlus, List.append_nil]
+      split
+      · exact (List.reverse_perm _).symm
+      · exact List.Perm.refl _
+    · intro _
+      simpa [locationBlocks, normalBlocks] using relBlk_pos B sb x ⟨p, hp⟩
+
+theorem blkLe_fst_le (s : Strand) (a b : Blk) (h : blkLe s a b = true) : a.1 ≤ b.1 := by
+  cases s <;> simp [blkLe, blkLePlus, blkLeOther] at h <;> omega
+
+theorem relTo_compound (l : Loc) (hl : l.Canon) (o : Location) (lo : Loc)
+    (hlo : toLoc o = some lo) (hwf : WF o) (opt : Bool) :
+    okLocRel (.compound l) o opt (ans (locationRelativeTo (.compound l) o opt)) = true := by
+  rw [locationRelativeTo_compound l o lo hlo opt]
+  have hB := WF_valid o lo hlo hwf
+  obtain ⟨-, -, -, -, hos, -, -⟩ := toLoc_facts o lo hlo
+  obtain ⟨B, sb⟩ := lo
+  obtain ⟨A, st⟩ := l
+  have hA : ∀ b ∈ A, b.1 ≤ b.2 := (blocksValid_iff _).mp hl.2.1
+  simp only at hB hos
+  apply okLocRel_of (.compound ⟨A, st⟩) o ⟨A, st⟩ ⟨B, sb⟩ rfl hlo
+  · intro hne
+    have : anyOverlap A B = false := by
+      rw [← Bool.not_eq_true, anyOverlap_iff]; exact hne
+    simp [this]
+  · intro m hm
+    split at hm
+    · simp at hm
+    · have hm := (ans_eq_some _ _).mp hm
+      simp only [bind, Except.bind] at hm
+      split at hm
+      · cases hm
+      split at hm
+      · cases hm
+      split at hm
+      · cases hm
+      rename_i c hc
+      have hcan := mkCompoundLoc_canon hc
+      split at hm
+      · exact optimizeLoc_wf hcan hm
+      · cases hm; simpa [wfLocation] using hcan
+  · intro hex hdir hnoA hnoB
+    simp only at hex hdir hnoA hnoB
+    have hov : anyOverlap A B = true := (anyOverlap_iff _ _).mpr hex
+    generalize hhits : A.filter (fun b => anyOverlap B [b]) = hits
+    have hh : ∀ x ∈ hits, ∃ p, Shared B x p := by
+      intro x hx; rw [← hhits] at hx
+      exact (shared_iff_anyOverlap B x).mp (List.mem_filter.mp hx).2
+    have hne : hits ≠ [] := by
+      obtain ⟨p, h1, h2⟩ := hex
+      obtain ⟨x, hx, hx1⟩ := coversBlocks_iff.mp h1
+      have : x ∈ hits := by
+        rw [← hhits]
+        exact List.mem_filter.mpr ⟨hx, (shared_iff_anyOverlap B x).mpr ⟨p, h2, hx1.1, hx1.2⟩⟩
+      intro h; rw [h] at this; simp at this
+    have hgo := go_eq ⟨A, st⟩ o ⟨B, sb⟩ hlo hwf hdir hits hh
+    simp only at hgo
+    generalize hrel : hits.map (relBlk B (bases ⟨B, sb⟩)) = rel at hgo
+    have hrel_ne : rel ≠ [] := by rw [← hrel]; simpa using hne
+    have hrel_pos : ∀ b ∈ rel, b.1 < b.2 := by
+      rw [← hrel]; intro b hb
+      obtain ⟨x, hx, rfl⟩ := List.mem_map.mp hb
+      exact relBlk_pos B sb x (hh x hx)
+    have hrel_v : ∀ b ∈ rel, b.1 ≤ b.2 := fun b hb => Nat.le_of_lt (hrel_pos b hb)
+    generalize hs : strandRelativeTo st sb = s
+    have hmk := mkCompoundLoc_ok s hrel_ne hrel_v
+    have hle : (sortBlocks s rel).Pairwise (fun a b => blkLe s a b = true) := sortBlocks_pairwise s rel
+    have hS1p : (sortBlocks s rel).Perm rel := sortBlocks_perm s rel
+    generalize hS1 : sortBlocks s rel = S1 at hmk hle hS1p
+    have hperm : (S1.flatMap blkAsc).Perm (((bases ⟨A, st⟩).filter (coversBlocks B)).filterMap
+        (fun p => idxOf? p (bases ⟨B, sb⟩))) := by
+      refine (hS1p.flatMap_right blkAsc).trans ?_
+      rw [← hrel, List.flatMap_map]
+      have hbase : (bases ⟨A, st⟩).Perm (A.flatMap blkAsc) := by
+        rw [bases_mk, basesPlus_eq_flatMap]; split
+        · exact List.reverse_perm _
+        · exact .refl _
+      refine List.Perm.trans ?_ ((hbase.filter _).filterMap _).symm
+      rw [List.filter_flatMap, List.filterMap_flatMap, ← hhits]
+      apply flatMap_filter_perm
+      · intro x hx hp
+        exact relBlk_perm B sb hB hnoB x ((shared_iff_anyOverlap B x).mp hp)
+      · intro x hx hp
+        rw [filter_nil_of_not_shared B x (by rw [← shared_iff_anyOverlap]; simp [hp])]; rfl
+    rw [if_neg (by simp [hov]), hgo, hos]
+    simp only [bind, Except.bind, hs, hmk]
+    cases opt with
+    | false =>
+      refine ⟨_, rfl, ?_, by simp, hperm, by simp⟩
+      simp [locationStrand?, ← hs, strandRelativeTo_eq_compose']
+    | true =>
+      simp only [↓reduceIte]
+      have hS1s : sortBlocks s S1 = S1 := List.mergeSort_of_pairwise hle
+      have hS1v : ∀ x ∈ S1, x.1 ≤ x.2 := fun x hx => hrel_v x (hS1p.mem_iff.mp hx)
+      have hnb_b := combStart_bases S1 hS1v
+      have hnb_ne : combStart S1 ≠ [] := by
+        intro h
+        rw [h] at hnb_b
+        obtain ⟨b, hb⟩ := List.exists_mem_of_ne_nil rel hrel_ne
+        have hbp := hrel_pos b hb
+        have : b.1 ∈ basesPlus S1 :=
+          mem_basesPlus.mpr (coversBlocks_iff.mpr ⟨b, hS1p.mem_iff.mpr hb, Nat.le_refl _, hbp⟩)
+        rw [← hnb_b] at this
+        simp [basesPlus] at this
+      have hopt := optimizeLoc_true_ok S1 s hS1s hnb_ne
+      have hAp := nonOverlap_pairwise A hA hnoA
+      have hhp : hits.Pairwise (fun a b => a.2 ≤ b.1) := by
+        rw [← hhits]; exact hAp.sublist List.filter_sublist
+      have hdis : rel.Pairwise (fun a b => a.2 ≤ b.1 ∨ b.2 ≤ a.1) := by
+        rw [← hrel, List.pairwise_map]
+        exact hhp.imp_of_mem (fun {x y} hx hy hxy =>
+          relBlk_disjoint B sb hB hnoB x y (hh x hx) (hh y hy) hxy)
+      have hdis1 : S1.Pairwise (fun a b => a.2 ≤ b.1 ∨ b.2 ≤ a.1) :=
+        (List.Perm.pairwise_iff (fun h => h.symm) hS1p).mpr hdis
+      have hlt : S1.Pairwise (fun a b => a.1 < b.1) :=
+        (hle.and hdis1).imp_of_mem (fun {a b} ha hb h => by
+          have := blkLe_fst_le s a b h.1
+          have := hrel_pos a (hS1p.mem_iff.mp ha)
+          have := hrel_pos b (hS1p.mem_iff.mp hb)
+          have := h.2
+          omega)
+      have hnlt : (combStart S1).Pairwise (fun a b => a.1 < b.1) :=
+        List.pairwise_map.mp ((List.pairwise_map.mpr hlt).sublist (combStart_starts S1))
+      rw [hopt]
+      refine ⟨_, rfl, ?_, ?_, ?_, ?_⟩
+      · simp [locationStrand_toSingleIfOne, ← hs, strandRelativeTo_eq_compose']
+      · unfold toSingleIfOne; split <;> simp
+      · rw [locationBlocks_toSingleIfOne, sortBlocks_of_fst_lt _ hnlt, ← basesPlus_eq_flatMap, hnb_b,
+          basesPlus_eq_flatMap]
+        exact hperm
+      · intro _
+        rw [locationBlocks_toSingleIfOne, sortBlocks_of_fst_lt _ hnlt]
+        exact combStart_normal S1
+
+/-- **C01-T4** -/
 theorem locationRelativeTo_ok (a b : Location) (ha : WF a) (hb : WF b) (opt : Bool) :
     okLocRel a b opt (ans (locationRelativeTo a b opt)) = true := by
-  sorry
+  cases hlb : toLoc b with
+  | none =>
+    have : b = .empty := by cases b <;> simp [toLoc] at hlb ⊢
+    subst this
+    cases a <;> simp [okLocRel, locationRelativeTo]
+  | some lo =>
+    cases a with
+    | empty => simp [okLocRel, locationRelativeTo]
+    | single x st => exact relTo_single x st b lo hlb hb opt
+    | compound l => exact relTo_compound l ha b lo hlb hb opt
 
 end BioCantor.Proofs
